@@ -133,6 +133,13 @@ int main(int argc, char** argv) {
     fens.push_back("4k3/8/8/8/2p5/8/3P4/2R1K3 w - - 0 1");
     fens.push_back("2r1k3/3p4/8/2P5/8/8/8/2K5 b - - 0 1");
     fens.push_back("7k/8/8/8/1p6/8/B1P5/K7 w - - 0 1");
+    // facing double pushes: each side has an unmoved pawn on one file and a pawn beside the other side's landing square, so a double
+    // push that creates an en-passant square can be answered by a double push on the SAME file that creates another one
+    fens.push_back("4k3/3p4/8/4P3/2p5/8/3P4/4K3 w - - 0 1");
+    fens.push_back("4k3/3p4/8/2P5/4p3/8/3P4/4K3 b - - 0 1");
+    fens.push_back("4k3/p7/8/1P6/1p6/8/P7/4K3 w - - 0 1");
+    fens.push_back("4k3/7p/8/6P1/6p1/8/7P/4K3 b - - 0 1");
+    fens.push_back("r3k2r/pp1p1ppp/8/2P1P3/2p1p3/8/PP1P1PPP/R3K2R w KQkq - 0 1");
     long events = 0, states = 0, sames = 0, maxQueens = 0, nulls = 0, unmakes = 0;
     std::set<U64> distinct;
     std::vector<std::string> samples;
